@@ -69,3 +69,130 @@ Proof.
   exists [(1%Z, [97; 32; 101; 114; 114; 111; 114])], [(1%Z, [97]); ((-4)%Z, [])].
   vm_compute. split; [reflexivity | discriminate].
 Qed.
+
+(* ------------------------------------------------------------------ versiontest round trip *)
+(* What versiontest.String writes for a set is the list of its present (key, value) pairs in
+   schema order; ParseString reads exactly that list back, provided every valued key has a
+   non-empty, space-free ASCII value (the syntax cannot carry others: F-C19-3). *)
+Definition present (s : state) (a : aset) (keys : list Z) : pairs :=
+  flat_map (fun key => match get_attr s a key with (v, true) => [(key, v)] | (_, false) => [] end) keys.
+
+Definition ver_items (kv : pairs) : list bytes :=
+  flat_map (fun p => to_lower (key_name ver_keys (fst p)) :: (match snd p with [] => [] | v => [v] end)) kv.
+
+Lemma ver_items_app x y : ver_items (x ++ y) = ver_items x ++ ver_items y.
+Proof. unfold ver_items. apply flat_map_app. Qed.
+
+Lemma ver_write_items_gen s a ks :
+  flat_map (fun key =>
+              match get_attr s a key with
+              | (v, true) => to_lower (key_name ver_keys key) :: (match v with [] => [] | _ => [v] end)
+              | (_, false) => []
+              end) ks = ver_items (present s a ks).
+Proof.
+  induction ks as [|k ks IH]; [reflexivity|].
+  cbn [flat_map present]. fold (present s a ks). rewrite ver_items_app, <- IH. f_equal.
+  destruct (get_attr s a k) as [v [|]]; [|reflexivity].
+  cbn [ver_items flat_map fst snd]. rewrite app_nil_r. destruct v; reflexivity.
+Qed.
+
+Lemma ver_write_items s a : ver_write s a = join [32] (ver_items (present s a vertest_all_keys)).
+Proof. unfold ver_write. rewrite ver_write_items_gen. reflexivity. Qed.
+
+Definition is_flag_ver (k : Z) : bool := existsb (Z.eqb k) vertest_flag_keys.
+
+(* shape of a pair the syntax can carry *)
+Definition ver_pair_ok (p : Z * bytes) : bool :=
+  existsb (Z.eqb (fst p)) vertest_all_keys &&
+  (if is_flag_ver (fst p) then match snd p with [] => true | _ => false end
+   else token_ok (snd p) && is_ascii (snd p)).
+
+Lemma ascii_lower_idem c : ascii_lower (ascii_lower c) = ascii_lower c.
+Proof.
+  unfold ascii_lower. destruct ((65 <=? c) && (c <=? 90)) eqn:E.
+  - apply andb_true_iff in E as (E1 & E2). apply N.leb_le in E1, E2.
+    assert (H : (65 <=? c + 32) && (c + 32 <=? 90) = false).
+    { apply andb_false_iff. right. apply N.leb_gt. lia. }
+    rewrite H. reflexivity.
+  - rewrite E. reflexivity.
+Qed.
+
+Lemma to_lower_idem s : to_lower (to_lower s) = to_lower s.
+Proof. unfold to_lower. rewrite map_map. apply map_ext. apply ascii_lower_idem. Qed.
+
+(* every schema key resolves back to itself from its lower-cased name (regenerated tables) *)
+Lemma ver_key_token k : existsb (Z.eqb k) vertest_all_keys = true ->
+  key_of_token ver_keys vertest_all_keys (to_lower (to_lower (key_name ver_keys k))) = Some k.
+Proof.
+  intros H. rewrite to_lower_idem.
+  assert (F : forallb (fun k => match key_of_token ver_keys vertest_all_keys (to_lower (key_name ver_keys k)) with
+                                | Some k' => Z.eqb k k' | None => false end) vertest_all_keys = true)
+    by (vm_compute; reflexivity).
+  rewrite forallb_forall in F.
+  apply existsb_exists in H as (k' & Hin & E). apply Z.eqb_eq in E. subst k'.
+  specialize (F k Hin).
+  destruct (key_of_token ver_keys vertest_all_keys (to_lower (key_name ver_keys k))) as [k'|]; [|discriminate].
+  apply Z.eqb_eq in F. congruence.
+Qed.
+
+Lemma parse_ver_items kv : forall fuel,
+  forallb ver_pair_ok kv = true -> (length (ver_items kv) < fuel)%nat ->
+  parse_items ver_keys vertest_all_keys vertest_flag_keys fuel (ver_items kv) = PVal kv.
+Proof.
+  induction kv as [|[k v] kv IH]; intros fuel H Hf.
+  - destruct fuel; [simpl in Hf; lia | reflexivity].
+  - cbn [forallb] in H. apply andb_true_iff in H as (Hp & Hr).
+    unfold ver_pair_ok in Hp. cbn [fst snd] in Hp. apply andb_true_iff in Hp as (Hk & Hv).
+    destruct fuel as [|fuel]; [simpl in Hf; lia|].
+    cbn [ver_items flat_map fst snd app] in *.
+    cbn [parse_items]. rewrite (ver_key_token k Hk).
+    fold (is_flag_ver k). destruct (is_flag_ver k) eqn:Fk.
+    + destruct v; [|discriminate]. cbn [app] in *.
+      fold (ver_items kv). rewrite IH; auto. simpl in Hf. fold (ver_items kv) in Hf. lia.
+    + apply andb_true_iff in Hv as (Ht & _).
+      destruct v as [|c v']; [discriminate|]. cbn [app] in *.
+      fold (ver_items kv). rewrite IH; auto. simpl in Hf. fold (ver_items kv) in Hf. lia.
+Qed.
+
+Lemma is_ascii_app a b : is_ascii (a ++ b) = is_ascii a && is_ascii b.
+Proof. unfold is_ascii. apply forallb_app. Qed.
+
+Lemma is_ascii_join l : forallb is_ascii l = true -> is_ascii (join [32] l) = true.
+Proof.
+  induction l as [|x t IH]; [reflexivity|]. intros H.
+  cbn [forallb] in H. apply andb_true_iff in H as (Hx & Ht). specialize (IH Ht).
+  destruct t as [|y t']; [exact Hx|].
+  change (join [32] (x :: y :: t')) with (x ++ [32] ++ join [32] (y :: t')).
+  rewrite !is_ascii_app, Hx, IH. reflexivity.
+Qed.
+
+Lemma ver_names_ok :
+  forallb (fun k => token_ok (to_lower (key_name ver_keys k)) && is_ascii (to_lower (key_name ver_keys k)))
+          vertest_all_keys = true.
+Proof. vm_compute. reflexivity. Qed.
+
+Lemma ver_items_tokens kv : forallb ver_pair_ok kv = true ->
+  forallb token_ok (ver_items kv) = true /\ forallb is_ascii (ver_items kv) = true.
+Proof.
+  induction kv as [|[k v] kv IH]; intros H; [split; reflexivity|].
+  cbn [forallb] in H. apply andb_true_iff in H as (Hp & Hr). destruct (IH Hr) as (I1 & I2).
+  unfold ver_pair_ok in Hp. cbn [fst snd] in Hp. apply andb_true_iff in Hp as (Hk & Hv).
+  pose proof ver_names_ok as N. rewrite forallb_forall in N.
+  apply existsb_exists in Hk as (k' & Hin & E). apply Z.eqb_eq in E. subst k'.
+  specialize (N k Hin). apply andb_true_iff in N as (N1 & N2).
+  cbn [ver_items flat_map fst snd]. fold (ver_items kv).
+  rewrite !forallb_app. cbn [forallb]. rewrite N1, N2, I1, I2.
+  fold (is_flag_ver k) in Hv. destruct (is_flag_ver k).
+  - destruct v; [split; reflexivity | discriminate].
+  - apply andb_true_iff in Hv as (Ht & Ha). destruct v; [discriminate|].
+    cbn [forallb]. rewrite Ht, Ha. split; reflexivity.
+Qed.
+
+Theorem ver_roundtrip s a :
+  forallb ver_pair_ok (present s a vertest_all_keys) = true ->
+  ver_parse (ver_write s a) = PVal (present s a vertest_all_keys).
+Proof.
+  intros H. destruct (ver_items_tokens _ H) as (T1 & T2).
+  unfold ver_parse. rewrite ver_write_items, (is_ascii_join _ T2). cbn [negb].
+  rewrite (fields_join _ T1). apply parse_ver_items; auto.
+Qed.
